@@ -351,7 +351,9 @@ def _gba_result(eng, st, E):
 REG.add(Contract("cobra/core/dictlist.py", "DictList.get_by_any", "C07", [("self", TDictList("Gene")), ("iterable", TNone())],
                  [Case("any", ensures=lambda E: z3.BoolVal(True))], assumed=True, key="DictList.get_by_any", result=_gba_result,
                  note="<DictList>.get_by_any(items): a NEW list of (non-None) members of the list, one per item, looked up by index / identifier "
-                      "/ identity; may raise for an unknown item (then nothing has been changed)"))
+                      "/ identity; may raise for an unknown item (then nothing has been changed).  ABSTRACT form kept for the callers; the real body is "
+                      "PROVED per argument shape in contracts/c15_get_by_any.py and implies this clause for int / str items and for objects that "
+                      "are the members registered under their ids - NOT for a foreign object carrying a member's id (finding)"))
 REG.get("DictList.get_by_any").cases[0].may_raise = "KeyError"
 
 
